@@ -46,6 +46,9 @@ pub enum Op11 {
     Plant,
     RegionCloneDrop { len: u32 },
     SendToClosed { attach: u8, multi: bool },
+    /// a forked sender is killed before its k-th transmission of a multi-packet message with
+    /// attachments; the receiver then reads what there is and drops everything
+    KilledSender { attach: u8, k: u8 },
 }
 
 #[derive(Clone, Debug, Serialize, Deserialize)]
@@ -150,6 +153,7 @@ impl Prop for C11 {
             1 => Just(Op11::Plant),
             1 => (1u32..20000).prop_map(|len| Op11::RegionCloneDrop { len }),
             2 => (0u8..6, any::<bool>()).prop_map(|(attach, multi)| Op11::SendToClosed { attach, multi }),
+            2 => (1u8..6, 0u8..6).prop_map(|(attach, k)| Op11::KilledSender { attach, k }),
         ];
         let op = prop_oneof![5 => w, 3 => extra];
         let repeat = if ctx.thorough { prop_oneof![8 => Just(1u16), 2 => 2u16..20, 1 => 100u16..1000].boxed() } else { prop_oneof![8 => Just(1u16), 2 => 2u16..6].boxed() };
@@ -358,6 +362,32 @@ fn run(case: &Case, warmup: bool) -> Result<Outcome, Failure> {
                         ensure!(c2.len() == *len as usize, "leak:region-clone-length", "clone has {} bytes", c2.len());
                         drop(c);
                         drop(c2);
+                    },
+                    Op11::KilledSender { attach, k } => {
+                        if os && f1 <= 16384 {
+                            failing_ops += 1;
+                            kinds.insert("killed-sender");
+                            let (tx, rx) = ipc::channel::<Node>().map_err(|e| Failure::inconclusive(e.to_string()))?;
+                            let (attach, k) = (*attach, *k);
+                            let child = sandbox::fork_child(move |_w| {
+                                let mut items = attachments(attach);
+                                items.push(Node::Bytes(payload::stream(3, f1 + 3 * f + 5)));
+                                // crash points count socketpair / sendmsg / send / close calls
+                                ip::arm(ip::gettid(), 0, k as i64 + 1);
+                                let _ = tx.send(Node::List(items));
+                                0
+                            });
+                            let _ = child.wait(Duration::from_secs(sandbox::watchdog_secs()));
+                            // whatever arrived (a whole message, or nothing after an abandoned one) is dropped
+                            let got = sandbox::watched(move || {
+                                let r = rx.try_recv();
+                                drop(r);
+                                drop(rx);
+                            });
+                            if let Err(h) = got {
+                                return Err(sandbox::hang_failure("leak:receive-hangs", "try_recv after the only sender process was killed mid-message", h));
+                            }
+                        }
                     },
                     Op11::SendToClosed { attach, multi } => {
                         failing_ops += 1;
